@@ -203,6 +203,7 @@ struct Pass<'a> {
     tail_loop: Option<Range<usize>>,
     in_tail_loop_depth: Option<usize>,
     wild: usize,
+    hoisted: usize,
 }
 
 impl<'a> Pass<'a> {
@@ -314,6 +315,39 @@ impl<'ast, 'a> Visit<'ast> for Pass<'a> {
                 _ => {
                     for a in attrs {
                         self.edits.push(Edit { range: br(a.span()), text: String::new(), rule: "R1" });
+                    }
+                }
+            }
+            // R25 (opt-in): hoist the scrutinee of a statement-level / returned `match` into a local, so that a
+            // proof hint can be placed between the call that produces the value and the arms that consume it:
+            // `return match E { .. }` => `let __vp_mN = E; return match __vp_mN { .. }` (same evaluation order)
+            if is_on(self.d, "R25") {
+                let m: Option<&syn::ExprMatch> = match s {
+                    syn::Stmt::Expr(syn::Expr::Match(m), _) => Some(m),
+                    syn::Stmt::Expr(syn::Expr::Return(r), _) => match r.expr.as_deref() {
+                        Some(syn::Expr::Match(m)) => Some(m),
+                        _ => None,
+                    },
+                    _ => None,
+                };
+                if let Some(m) = m {
+                    let is_value = matches!(
+                        &*m.expr,
+                        syn::Expr::Call(_) | syn::Expr::MethodCall(_) | syn::Expr::Try(_) | syn::Expr::Paren(_) | syn::Expr::Macro(_)
+                    );
+                    if is_value {
+                        let k = self.src.matches("let __vp_m").count() + 1 + self.hoisted;
+                        self.hoisted += 1;
+                        let sc = br(m.expr.span());
+                        let st = br(s.span()).start;
+                        let scrut = self.s(sc.clone()).to_string();
+                        // one edit covering [stmt start, scrutinee end): prefix text is re-emitted verbatim
+                        let prefix = self.s(st..sc.start).to_string();
+                        self.edits.push(Edit {
+                            range: st..sc.end,
+                            text: format!("let __vp_m{} = {};\n{}__vp_m{}", k, scrut, prefix, k),
+                            rule: "R25",
+                        });
                     }
                 }
             }
@@ -696,7 +730,7 @@ pub fn run(text0: &str, d: &Dir, rules: &mut BTreeMap<String, usize>) -> String 
             Some(syn::Stmt::Expr(e @ syn::Expr::Loop(_), None)) => Some(br(e.span())),
             _ => None,
         };
-        let mut p = Pass { src: &text, d, edits: vec![], loop_depth: 0, tail_loop, in_tail_loop_depth: None, wild: 0 };
+        let mut p = Pass { src: &text, d, edits: vec![], loop_depth: 0, tail_loop, in_tail_loop_depth: None, wild: 0, hoisted: 0 };
         p.visit_impl_item_fn(&f);
         if p.edits.is_empty() {
             // an opt-in structural rule that found no site is a lost anchor (undecided), never a silent pass
